@@ -35,7 +35,9 @@ fn format_number(
 ) -> Resolved {
     let value: Decimal = match value {
         Value::Integer(v) => v.into(),
-        Value::Float(v) => Decimal::from_f64(*v).expect("not NaN"),
+        // infinities and finite floats beyond the range of `Decimal` (about 7.9e28) have no decimal form
+        Value::Float(v) => Decimal::from_f64(*v)
+            .ok_or_else(|| format!("unable to represent {v} as a decimal number"))?,
         value => {
             return Err(ValueError::Expected {
                 got: value.kind(),
